@@ -315,6 +315,8 @@ func (b *sb) event(ev string) {
 		b.add("env deliver s2c bad : badhpack %d", sid)
 	case "closing":
 		b.add("env closing")
+	case "wfail-blocked": // writes toward the client fail from now on: whatever is blocked in one fails
+		b.add("env failwrites s2c")
 	}
 	core.Count("event:" + ev)
 }
@@ -342,7 +344,14 @@ func (b *sb) trailing(ev string) {
 	core.Count("trailing")
 }
 
-func buildCase(r *core.Rand, state, ev string) []string {
+// pairEvents: what may follow (or precede) another terminating event.
+var pairEvents = append(append([]string{}, events...), "wfail-blocked")
+
+func buildCase(r *core.Rand, state, ev string) []string { return buildSeq(r, state, ev, "") }
+
+// buildSeq: a state, a terminating event and (ev2 != "") a second one while the session is still
+// winding down from the first - the stall, if any, still on, or ended and started again in between.
+func buildSeq(r *core.Rand, state, ev, ev2 string) []string {
 	b := newSB(r)
 	b.state = state
 	switch state {
@@ -391,12 +400,31 @@ func buildCase(r *core.Rand, state, ev string) []string {
 		b.add("probe")
 	}
 	b.event(ev)
+	if ev2 != "" {
+		switch {
+		case b.stalled && r.Chance(1, 4):
+			b.pause()
+			b.add("env unstall s2c")
+			b.pause()
+			b.add("env stall s2c")
+		case r.Chance(2, 3):
+			b.pause()
+		}
+		b.event(ev2)
+		core.Count("pairs")
+	}
 	b.trailing(ev)
 	b.unstall()
 	b.add("finish")
 	core.Count("state:" + state)
 	return b.ops
 }
+
+// stalledStates: a write toward the client is blocked when the first event arrives.
+var stalledStates = []string{"full", "zero+full", "contended"}
+
+// failsBlockedWrite: events that make the blocked write fail.
+var failsBlockedWrite = []string{"wfail-blocked", "client-eof", "wfail-client-direct", "wfail-client-writer", "wfail-client-ack"}
 
 // early: the session ends (or the proxy shuts down) before, during or right after the steps that
 // precede the relays: dial, TLS handshake, preface read, preface write, the first SETTINGS.
@@ -505,7 +533,7 @@ var states = []string{"idle", "mid", "zero-c2s", "zero-s2c", "long-c2s", "long-s
 func (P) Gen(r *core.Rand, tier string, emit func([]string)) {
 	rounds := 1
 	if tier == "thorough" {
-		rounds = 32
+		rounds = 24
 	}
 	for i := 0; i < rounds; i++ {
 		for _, st := range states {
@@ -521,11 +549,44 @@ func (P) Gen(r *core.Rand, tier string, emit func([]string)) {
 		}
 	}
 	destMuSweep(tier, emit)
+	if tier == "thorough" {
+		// every ordered pair of terminating events in every state
+		for _, st := range states {
+			for _, e1 := range pairEvents {
+				for _, e2 := range pairEvents {
+					if e1 != e2 {
+						emit(buildSeq(r.Fork(), st, e1, e2))
+					}
+				}
+			}
+		}
+	} else {
+		// a sample of pairs: in each stalled state every event once together with a failure of the
+		// blocked write (before or after it), and a few arbitrary pairs elsewhere
+		for i, e := range events {
+			st := stalledStates[i%len(stalledStates)]
+			f := failsBlockedWrite[r.Intn(len(failsBlockedWrite))]
+			if f == e {
+				f = "wfail-blocked"
+			}
+			if r.Chance(2, 3) {
+				emit(buildSeq(r.Fork(), st, e, f))
+			} else {
+				emit(buildSeq(r.Fork(), st, f, e))
+			}
+		}
+		for i := 0; i < 8; i++ {
+			e1, e2 := pairEvents[r.Intn(len(pairEvents))], pairEvents[r.Intn(len(pairEvents))]
+			if e1 != e2 {
+				emit(buildSeq(r.Fork(), states[r.Intn(len(states))], e1, e2))
+			}
+		}
+	}
 	if tier != "thorough" {
 		// a second, random half round
 		for _, st := range states {
 			for _, ev := range events {
-				if r.Chance(2, 5) {
+				if r.Chance(1, 4) {
 					emit(buildCase(r.Fork(), st, ev))
 				}
 			}
